@@ -76,7 +76,8 @@ class Model:
         elif op.startswith("DT"):
             del m.tables[op[2:]]
             if op[2:] == "t":
-                m.index = False
+                # an index on a dropped table: the engine keeps the catalog entry; its state is unspecified from here on
+                m.index = None if m.index else False
                 if m.view:
                     m.view = None      # a view over a dropped table: unspecified from here on, no more view operations
                 # the view on t may or may not survive; the property only speaks of tables
